@@ -18,11 +18,14 @@ PARTIAL = [
     "C10_readonly_no_write: 'the file' is the log of H5Writer routines that ran; that a handle opened 'r' cannot change the "
     "bytes otherwise is h5py's mode enforcement (trusted) and is observed by SHA-256 on every case",
     "C10_helpers_readonly: path2workspace / monitored_directory_copy as transcribed in Model/Mode.v; InputFile.read_ui_json "
-    "is covered by the oracle only",
+    "is covered by the oracle only; the InputFile.data block that relies on fetch_active_workspace's DEFAULT mode is tied by the "
+    "extracted default and call table (C10_helper_blocks_request_readonly, C10_default_block_readonly) and by the fetch_default / "
+    "input_file_ws helper cases on closed and open workspaces built 'r' and 'r+'",
 ]
 TRUSTED = [
     "Coq 8.16.1 kernel + vm_compute (table theorem, correspondence evaluation); no axioms (Print Assumptions: closed)",
-    "tools/vlib/iotable.py: the ast extractor of T_iocalls / T_fetch / T_reader_mut (regenerated from $VERIF_REPO on every run); "
+    "tools/vlib/iotable.py: the ast extractor of T_iocalls / T_fetch / T_reader_mut, fetch_active_default and "
+    "T_fetch_active_calls (regenerated from $VERIF_REPO on every run); "
     "cross-checked at run time: every traced _io_call must sit at a table row with the same routine and literal mode",
     "hand model coq/theories/Model/Mode.v of Workspace.{geoh5, open, close, __exit__, _io_call, save_as}, "
     "fetch_active_workspace, path2workspace, monitored_directory_copy; tied by running the code and the model on the same cases",
@@ -43,7 +46,8 @@ RULE = (
     "on a fixture instance of a workspace opened mode='r' and once on an identical copy opened 'r+' (twin: tells whether the "
     "call writes); seq: 4-10 random operations (entry points, listing getters, close, open, fetch_active_workspace, save_as, "
     "path2workspace, monitored_directory_copy, gc) on one mode='r' workspace, ~25% with an explicit writable re-open or a held "
-    "second handle (OSError fallback); helper: path2workspace, InputFile.read_ui_json, monitored_directory_copy from r / closed "
+    "second handle (OSError fallback); helper: path2workspace, InputFile.read_ui_json, monitored_directory_copy, a bare `with fetch_active_workspace(ws):` "
+    "(no mode argument) and InputFile(ui_json={geoh5: <Workspace object>}) from r / closed "
     "/ r+ sources, chained exports inside the monitoring directory under a stepped clock; span sequences: explicit writable spans "
     "followed by implicit re-opens, every read-only span hashed; fallback entries: workspace built 'r+' whose open fell back to "
     "'r' under a held handle.  non-trivial = the case reaches Workspace._io_call with a request for a writable mode"
@@ -269,9 +273,11 @@ def generate(rng, tier):
         cases.append({"kind": "seq", "lock": lock, "ops": ops})
     for how in ("ctor", "setter"):
         cases.append({"kind": "helper", "which": "repack_readonly", "src_state": how, "target": "pts"})
-    for which, states in (("path2workspace", ["na"]), ("read_ui_json", ["na"]), ("monitored_copy", ["r", "closed_rp", "rp", "closed_r"])):
+    allst = ["r", "closed_rp", "rp", "closed_r"]
+    for which, states in (("path2workspace", ["na"]), ("read_ui_json", ["na"]), ("monitored_copy", allst),
+                          ("fetch_default", allst), ("input_file_ws", allst)):
         for st in states:
-            for tgt in (["pts", "container", "curve"] if which == "monitored_copy" else ["pts"]):
+            for tgt in (["pts", "container", "curve"] if which in ("monitored_copy", "fetch_default") else ["pts"]):
                 cases.append({"kind": "helper", "which": which, "src_state": st, "target": tgt})
     return cases
 
@@ -565,7 +571,28 @@ def drive_helper(case, work):
             sha0 = iofix.sha256(path) if st != "rp" else None
             out["handle_before"] = iotrace.handle_state(ws)
             out["ctor_mode"] = ws._mode  # noqa: SLF001
-            d = iodrive.call_traced(lambda: monitored_directory_copy(tmp, ent), ws)
+            if which == "fetch_default":
+                # `with fetch_active_workspace(ws):` WITHOUT a mode argument around one read: the helper's default must be "r"
+                from geoh5py.shared.utils import fetch_active_workspace
+
+                euid = ent.uid
+
+                def thunk():
+                    with fetch_active_workspace(ws) as w_:
+                        return w_.fetch_metadata(euid)
+            elif which == "input_file_ws":
+                # a Workspace OBJECT (not a path) handed to InputFile as the ui.json's geoh5 value: the data setter promotes and
+                # validates inside `fetch_active_workspace(self._geoh5)` (default mode)
+                ui = deepcopy(default_ui_json)
+                ui["geoh5"] = ws
+                ui["object"] = templates.object_parameter(value=ent.uid)
+
+                def thunk():
+                    return InputFile(ui_json=ui).data
+            else:
+                def thunk():
+                    return monitored_directory_copy(tmp, ent)
+            d = iodrive.call_traced(thunk, ws)
             out.update(d)
             out["handle_after"] = iotrace.handle_state(ws)
             out["sha_same"] = (iofix.sha256(path) == sha0) if sha0 is not None else None
@@ -737,7 +764,9 @@ def case_term(case, obs):
         return ("agree_run Closed R false 1 [OpenM None; Calls %s; Close] [None; None; None] [Open R; Open R; %s] %s && sites_ok IOT %s"
                 % (c_calls(obs["calls"]), c_handle(obs["handle_after"]), c_log(obs["entries"]), c_sites(obs["calls"])))
     dm = MODES[obs["ctor_mode"]]
-    return ("agree_run %s %s false 1 [MonitoredCopy %s] [%s] [%s] %s && sites_ok IOT %s"
+    # fetch_default / input_file_ws: a fetch_active_workspace block with the DEFAULT mode, which the model takes to be R
+    opn = "MonitoredCopy" if which == "monitored_copy" else "FetchActive R"
+    return (("agree_run %s %s false 1 [" + opn + " %s] [%s] [%s] %s && sites_ok IOT %s")
             % (c_handle(obs["handle_before"]), dm, c_calls(_body_calls(obs)), c_err(obs["exc"], obs["calls"]),
                c_handle(obs["handle_after"]), c_log(obs["entries"]), c_sites(obs["calls"])))
 
